@@ -1,4 +1,4 @@
-\* C15 two-run form, required design, 3 files, <= 5 items (thorough)
+\* C15 two-run form, required design, 3 files, run lengths {1,2,4}, <= 4 items + the insertion (thorough)
 CONSTANTS
   CNO = 2
   LNO = 3
@@ -13,7 +13,7 @@ CONSTANTS
   RunLens = {1, 2, 4}
   MaxLines = 12
   MaxIf = 1
-  MaxItems = 5
+  MaxItems = 4
   Feat = {"line", "if", "misc"}
   AvoidEofIf = FALSE
   AvoidCollide = FALSE
